@@ -76,6 +76,8 @@ func (p *Program) typeIDByName(s string) int64 {
 // ---- locations (assigns clauses) ----
 
 type loc struct {
+	rng    bool   // elements [lo,hi) (absolute indices) of region r
+	lo, hi *Term
 	all    bool
 	mem    bool       // whole region of a slice's backing store
 	root   types.Type // region element type
@@ -116,6 +118,22 @@ func (c *evalCtx) evalLoc(e ast.Expr) (out []loc) {
 	}
 	if id, ok := e.(*ast.Ident); ok && id.Name == "everything" {
 		return []loc{{all: true, src: src}}
+	}
+	if se, ok := e.(*ast.SliceExpr); ok {
+		// s[a:b]: the elements a..b-1 of s (b may exceed len(s), up to cap)
+		v := c.rv(c.eval(se.X))
+		sl, ok := v.(Sl)
+		if !ok || sl.Loc != nil {
+			c.errf("range location on %T", v)
+		}
+		lo, hi := Int(0), sl.L
+		if se.Low != nil {
+			lo = c.term(se.Low)
+		}
+		if se.High != nil {
+			hi = c.term(se.High)
+		}
+		return []loc{{rng: true, root: sl.Elem, r: sl.R, lo: Add(sl.O, lo), hi: Add(sl.O, hi), src: src}}
 	}
 	v := c.eval(e)
 	switch vv := v.(type) {
@@ -173,6 +191,9 @@ func (l loc) covers(root types.Type, r, i *Term, prefix string) *Term {
 	if l.mem {
 		return Eq(l.r, r)
 	}
+	if l.rng {
+		return And(Eq(l.r, r), Le(l.lo, i), Lt(i, l.hi))
+	}
 	if !(prefix == l.prefix || strings.HasPrefix(prefix, l.prefix+".") || strings.HasPrefix(prefix, l.prefix+"$") || l.prefix == "") {
 		return tFalse
 	}
@@ -196,6 +217,16 @@ func (x *Exec) havocLoc(st *State, l loc) {
 			name := familyName(l.root, lf.path)
 			fam := st.heap.family(name, lf.sort)
 			st.heap.fam[name] = Store(fam, l.r, Sym(fresh("hv."+name), arrSort(SInt, lf.sort)))
+		})
+	case l.rng:
+		walkType(l.root, "", func(lf leaf, _ types.Type, _ string) {
+			name := familyName(l.root, lf.path)
+			fam := st.heap.family(name, lf.sort)
+			oldA := Select(fam, l.r)
+			na := Sym(fresh("hv."+name), arrSort(SInt, lf.sort))
+			p := Sym(fresh("p"), SInt)
+			st.assume(Forall([]*Term{p}, Implies(Not(And(Le(l.lo, p), Lt(p, l.hi))), Eq(Select(na, p), Select(oldA, p))), Select(na, p)))
+			st.heap.fam[name] = Store(fam, l.r, na)
 		})
 	default:
 		walkType(l.typ, "", func(lf leaf, _ types.Type, _ string) {
@@ -568,6 +599,16 @@ func (x *Exec) applyContract(st *State, fr *Frame, fc *FuncContract, key string,
 			sl.View = true
 			res = sl
 		}
+		if tv, ok := res.(Tup); ok {
+			nt := append(Tup(nil), tv...)
+			for i, e := range nt {
+				if sl, ok := e.(Sl); ok {
+					sl.View = true
+					nt[i] = sl
+				}
+			}
+			res = nt
+		}
 	}
 	return res
 }
@@ -637,6 +678,13 @@ func (x *Exec) calleeFrameDuty(st *State, l loc, key string, pos token.Pos) {
 		}
 		// loop frames
 		x.frameDutyRegion(st, l.root, l.r, pos, what)
+		return
+	}
+	if l.rng {
+		if isFreshSym(l.r) {
+			return
+		}
+		x.frameDutyRange(st, l, pos, what)
 		return
 	}
 	if isFreshSym(l.r) {
@@ -1095,4 +1143,28 @@ func addrAlloc(v ssa.Value) *ssa.Alloc {
 		}
 	}
 	return nil
+}
+
+// frameDutyRange: every index of the callee's range [lo,hi) of region r must be assignable by the caller.
+func (x *Exec) frameDutyRange(st *State, l loc, pos token.Pos, what string) {
+	mk := func(alloc *Term, locs []loc) *Term {
+		p := Sym(fresh("p"), SInt)
+		cov := tFalse
+		for _, cl := range locs {
+			cov = Or(cov, cl.covers(l.root, l.r, p, ""))
+		}
+		return Or(Not(Select(alloc, l.r)), Le(l.hi, l.lo), Forall([]*Term{p}, Implies(And(Le(l.lo, p), Lt(p, l.hi)), cov)))
+	}
+	for fr2 := st.top; fr2 != nil; fr2 = fr2.parent {
+		for h, snap := range fr2.loops {
+			if snap == nil || !fr2.info.loopBlks[h][fr2.block.Index] || snap.locs == nil {
+				continue
+			}
+			x.oblige(st, "frame-loop", x.pos(pos), what, x.allProps(), mk(snap.heap.alloc, snap.locs))
+		}
+	}
+	if x.fc == nil || !x.fc.HasAssigns {
+		return
+	}
+	x.oblige(st, "frame", x.pos(pos), what, x.framePropsOr(), mk(st.old.alloc, x.entryLocs(st)))
 }
